@@ -79,3 +79,10 @@ Theorem C32_closed_inside_record : forall stream cbc_dec aopen mac f expect_ccs 
   rroc stream cbc_dec aopen mac (S f) expect_ccs c buf = RREnd EndUnexpectedEOF.
 Proof. exact closed_inside_record. Qed.
 Print Assumptions C32_closed_inside_record.
+
+(* data phase: whatever KeyUpdate messages the peer sends and whether or not
+   the answers can be written, handleKeyUpdate never locks c.out while holding
+   it, so Read and the following Write return (lock summary of conn.go) *)
+Theorem C32_keyupdate_no_deadlock : forall acts write_fails, post_run acts write_fails <> PDeadlock.
+Proof. exact post_run_no_deadlock. Qed.
+Print Assumptions C32_keyupdate_no_deadlock.
